@@ -252,10 +252,11 @@ func TestC12(t *testing.T) {
 			r.Inconclusive("watchdog: a Process* call did not return within 120s")
 		}
 	})
+	systematicLayer(r)
 	r.Count("max_round_reached", int(maxRound.Load()))
 	r.Count("max_suffix_sweeps_needed", int(maxSweeps.Load()))
 	r.Assume("messages are authenticated: a byzantine validator cannot send under a correct validator's address (signatures are checked below the state machine)")
-	r.Assume("sampling plus guided adversaries, not the exhaustive n=4 enumeration of the property's quantifier")
+	r.Assume("random sampling plus guided adversaries, plus - for n=4, one height, equal power - EVERY schedule with at most two deviations (reorder / drop / early timeout / one of 9 byzantine actions, at any step) from the FIFO base schedule, executed on the real state machines; that is a bounded family, not all schedules")
 	r.Assume("ProcessSync / TriggerSync (catch-up through the sync protocol) and WAL replay are not driven")
 	r.Finish("case = one schedule: n in {4,7,10} real tendermint state machines (starknet types), equal or weighted voting power (totals of every residue mod 3, "+
 		"per-height power changes), byzantine power strictly below a third (often the largest such), scripted proposer table, 1-3 heights, driven like the driver "+
